@@ -353,6 +353,13 @@ func (i Interval) Expanded(margin float64) Interval {
 	if result.Lo <= -math.Pi {
 		result.Lo = math.Pi
 	}
+	// When the expanded interval is within rounding error of the full circle
+	// its two computed endpoints can pass each other, which would turn an
+	// almost full result into an almost empty one. An expansion must keep
+	// every point of the original interval.
+	if margin >= 0 && !result.ContainsInterval(i) {
+		return FullInterval()
+	}
 	return result
 }
 
